@@ -12,7 +12,6 @@ ALL = ["C%02d" % i for i in range(1, 21)]
 NA_REASONS = {
     "C02": "restart losslessness quantifies over whole-engine histories x configurations (HNSW build, HashMap stores, bincode, real files); no function-sized kernel is within reach of CBMC/z3 beyond the obligations already claimed under C01/C09/C13 (DESIGN 3)",
     "C05": "linearizability quantifies over thread interleavings of the real engine; Kani does not model threads and the operations sit on heap containers and I/O that cannot be bit-blasted (DESIGN 3)",
-    "C14": "quota counters live in ServerState behind async handlers and need a live TieredEngine; the interesting cases are concurrent RPC pairs; neither a unit harness nor a sequential MIR obligation decides count == live documents (DESIGN 3)",
     "C16": "statistical recall floor over thousands of float vectors; no bounded symbolic encoding exists (DESIGN 3)",
 }
 TECH = {
